@@ -24,6 +24,9 @@ PARSERS = dict(pkg="./server", test="TestVerifParsers", name="parsers", diff=Tru
 BYTESTREAM = dict(pkg="./server", test="TestVerifByteStream", name="bytestream", diff=True)
 HANDLERS = dict(pkg="./server", test="TestVerifHandlersNil", name="handlers", diff=False)
 
+FINDMISSING = dict(pkg="./cache/disk", test="TestVerifFindMissing", name="findmissing", diff=True)
+FAILFAST = dict(pkg="./cache/disk", test="TestVerifFailFastRace", name="failfast", diff=False)
+
 COMMON_TB = [
     "goroutine scheduling, sync.Mutex and the file system are modelled (atomic lock regions, process-visible file state), not verified",
 ]
@@ -79,7 +82,7 @@ PROPS = {
         level_text="Decision model of the HTTP wrappers / certificate checks and gRPC interceptors; theorems for every configuration, endpoint, credential state and every gRPC method name (universally quantified); the real startHttpServer/startGrpcServer enumerated exhaustively over the whole finite domain against the model.",
         level_note="Lean 4 kernel; readOnlyMethods / health name / registered services regenerated from the source (Bridge.Auth); the correspondence is exhaustive, not sampled.", technique=TECH),
     "C06": dict(
-        lean="BR.Props.C06", runs=[SRVACDEPS], trusted_base=["protobuf decoding of stored ActionResult / Tree blobs is a parameter (treeOf)"], assumptions=[],
+        lean="BR.Props.C06", runs=[SRVACDEPS, FINDMISSING, FAILFAST], trusted_base=["protobuf decoding of stored ActionResult / Tree blobs is a parameter (treeOf)"], assumptions=[],
         level_text="Theorems on M8: a hit implies every referenced blob (tree blobs, tree root/child files, non-inlined output files, stdout, stderr) is present; absence yields a miss, never an error or partial result; all present yields a hit. Server-level oracle over every subset of absent blobs; the decision compared with the model.",
         level_note=NOTE + "the fail-fast presence check is C10's model; recency refresh of dependencies is checked at the disk level.", technique=TECH),
     "C11": dict(
@@ -99,6 +102,10 @@ PROPS = {
         lean="BR.Props.C16", runs=[BYTESTREAM, PARSERS], trusted_base=["grpc-go stream delivery"], assumptions=[],
         level_text="Theorems on M10: early return for existing blobs, failure for non-zero first offset / bad or empty name / over-limit size / more or fewer bytes than declared, success commits exactly the declared size, parsers accept every conformant name with any instance prefix and trailing metadata; the real Write compared with writeRPC on generated message sequences.",
         level_note=NOTE + "the three-goroutine schedule is abstracted to the message sequence.", technique=TECH),
+    "C10": dict(
+        lean="BR.Props.C10", runs=[FINDMISSING, FAILFAST], trusted_base=COMMON_TB, assumptions=[],
+        level_text="Theorems on M7 for every batch size and list length: the answer is the request filtered by 'absent locally (or other size) and not vouched for by the back end (or too large for it)', in order with duplicates; present-throughout never reported, absent-throughout reported, empty blob never missing, worker write order irrelevant, fail-fast miss iff something is missing. The real FindMissingCasBlobs compared with the model on generated partitions with concurrent unrelated puts; the final select driven through its yield point.",
+        level_note=NOTE + "the worker pool's scheduling is abstracted by the order-irrelevance theorem.", technique=TECH),
 }
 
 _root = os.path.dirname(os.path.dirname(os.path.abspath(__file__)))
